@@ -147,6 +147,13 @@ def tameHeader : Obj → Bool
     (kvs.map (·.1)).eraseDups.length == kvs.length
   | _ => false
 
+/-- could be decoded as a handshake request with Version = 1 (the only supported version):
+a map with Version = 1, or an array whose first element is 1 -/
+def isVersionOneBody : Obj → Bool
+  | .map kvs => kvs.any fun kv => kv.1 == "Version" && (match kv.2 with | .atom (.int 1) => true | _ => false)
+  | .arr (.atom (.int 1) :: _) => true
+  | _ => false
+
 def isGoodHandshake : List Obj → Option (List Obj)
   | h :: b :: rest =>
     match fullHeader? h, b with
@@ -161,10 +168,13 @@ def monitorRun (s : St) (impl : String) : Option (String × String) :=
     | none => some ("malformed", impl)
     | some replies =>
       let quiet := es.isEmpty && vs.isEmpty && ts.isEmpty && st == ["alive"] && replies.all (!·.data)
-      let noHs := !s.objs.any (objMentions "handshake")
+      -- a successful handshake needs a request named "handshake" AND a body whose Version is 1
+      let noHs := !s.objs.any (objMentions "handshake") || !s.objs.any isVersionOneBody
       let noKey := s.key != "" && !s.objs.any (objMentions s.key)
-      if noHs && !(quiet && replies.all (·.err == "hs-required") && replies.length ≤ 1) then
-        some ("effect-before-handshake", s!"no object mentions a handshake, yet the agent did: {impl}")
+      if noHs && !(quiet && replies.all (fun r => r.err == "hs-required" || r.err == "bad-version") &&
+            (replies.filter (·.err == "hs-required")).length ≤ 1 &&
+            (s.objs.any (objMentions "handshake") || replies.all (·.err == "hs-required"))) then
+        some ("effect-before-handshake", s!"no handshake with the supported version was ever sent on this connection, yet the agent did: {impl}")
       else if noKey && !(quiet && (replies.filter (·.err == "ok")).length ≤ 1) then
         some ("effect-before-auth", s!"the key was never presented, yet the agent did: {impl}")
       else
